@@ -1145,12 +1145,29 @@ func (g *genCtx) compileAssign(c *Contract, a *AssignItem, si *sigInfo, pos toke
 		return
 	}
 	info := &types.Info{Types: map[ast.Expr]types.TypeAndValue{}}
-	if err := types.CheckExpr(g.pkg.Fset, g.pkg.Types, scopePos, e, info); err != nil {
-		g.errs = append(g.errs, fmt.Sprintf("%s:%d: assigns item %q does not type-check: %v", c.File, c.Line, t, err))
-		return
+	var rt string
+	if c.External {
+		for _, pv := range si.params {
+			plist = append(plist, pv.Name()+" "+g.typeStr(pv.Type()))
+		}
+		fl, perr := parser.ParseExpr(fmt.Sprintf("func(%s) { _ = %s }", strings.Join(plist, ", "), stripOldText(src)))
+		if perr != nil {
+			g.errs = append(g.errs, fmt.Sprintf("%s:%d: assigns item %q: %v", c.File, c.Line, t, perr))
+			return
+		}
+		if err := types.CheckExpr(g.pkg.Fset, g.pkg.Types, scopePos, fl, info); err != nil {
+			g.errs = append(g.errs, fmt.Sprintf("%s:%d: assigns item %q does not type-check: %v", c.File, c.Line, t, err))
+			return
+		}
+		as := fl.(*ast.FuncLit).Body.List[0].(*ast.AssignStmt)
+		rt = g.typeStr(info.Types[as.Rhs[0]].Type)
+	} else {
+		if err := types.CheckExpr(g.pkg.Fset, g.pkg.Types, scopePos, e, info); err != nil {
+			g.errs = append(g.errs, fmt.Sprintf("%s:%d: assigns item %q does not type-check: %v", c.File, c.Line, t, err))
+			return
+		}
+		rt = g.typeStr(info.Types[e].Type)
 	}
-	_ = plist
-	rt := g.typeStr(info.Types[e].Type)
 	g.compileClause(c, cl, si, pos, mode, rt)
 	a.Expr = cl
 }
